@@ -39,6 +39,11 @@ impl InlayHint {
 }
 
 pub fn exec(db: &dyn IndexDatabase, range: FileRange) -> Option<Vec<InlayHint>> {
+    // nothing lies inside an empty range (and the interval map rejects empty queries)
+    if range.range.is_empty() {
+        return Some(vec![]);
+    }
+
     let index = db.index();
     let symbol_map = index.symbol_map();
 
